@@ -22,6 +22,11 @@ ASSUMPTIONS = [
     "win rate / profit factor compared up to decimal rounding (1e-18 relative); PnL exactly representable",
     "instrument sheets are compared on pnl, win_rate, profit_factor; asset sheets on balance_end (drawdown fields: C18; "
     "Sharpe/Sortino/Calmar/rate of return: out of scope)",
+    "engine mode: consecutive closed positions of one instrument are chained, where the numbers allow it exactly, by CROSSING "
+    "fills (the closing fill is over-sized and opens the next position on the other side: long->short->long..); the position "
+    "closed by such a fill belongs to the instrument's history like any other",
+    "direct / summary modes: exit times are non-decreasing per instrument only - across instruments they may be equal or "
+    "reported late (behind another key's exit, a balance update or TradingSummaryGenerator::update_time_now)",
     "engine mode: producing the closed position from fills is C02's subject - a deviation there is a tool error, not a C16 verdict",
 ]
 MODES = ("direct", "summary", "engine")
@@ -92,7 +97,8 @@ def check(ctx):
             for k, v in info.get("arm_hits", {}).items():
                 arms[k] = arms.get(k, 0) + v
     # (runs cut short by a violation exercise fewer arms: vacuity is only judged on a clean run)
-    if not ctx.violations and not all(arms.get(k) for k in ("win", "loss", "break_even", "balance", "generate_event", "keyed_by_name")):
+    if not ctx.violations and not all(arms.get(k) for k in ("win", "loss", "break_even", "balance", "generate_event", "keyed_by_name",
+                                                            "crossing_fill", "equal_exit_time", "late_reported_exit", "clock_update")):
         raise vlib.ToolError("vacuous run: a kind of event was never replayed: %s" % arms)
     return ctx.finish(extra={"arm_hits": arms, "violations_by_signature_and_mode": counts})
 
